@@ -759,6 +759,7 @@ namespace Pistache::Http::Experimental
     {
 
         std::stringstream streamBuf;
+        streamBuf.imbue(std::locale::classic());
         writeRequest(streamBuf, request);
         if (!streamBuf)
             reject(std::runtime_error("Could not write request"));
